@@ -4,8 +4,13 @@ Proof part: the component models take an allocation oracle and the theorems (C17
 C18 lmq/idmap ENOMEM no-op, ...) hold for every oracle; Props/C20.lean collects them.
 Support (fault enumeration, NOT the proof): every allocation made while running protocol histories under the
 simulated platform is failed once (k-th allocation for sampled/all k); each run is judged generically:
-no sanitizer report, no deadlock, ownership discipline (own-judge), allocator balance after close + nng_fini."""
-import os, time, json
+no sanitizer report, no deadlock, ownership discipline (own-judge), allocator balance after close + nng_fini.
+The histories get statistics snapshots inserted (`stats` op of s_proto.c: nng_stats_get + walk + nng_stats_free).
+UNIT parts (same idea, component level, the real source text included by the harness): URL (u_urlfail.c),
+WebSocket frame layer (u_wsfail.c = u_ws.c + valloc), HTTP connection / message layer (u_httpfail.c = u_http.c +
+valloc).  REAL part: harness/r_allocfail.c (open + listen + dial + one REQ/REP exchange + close over inproc, ipc,
+tcp with real threads; search only, the allocation order is not deterministic)."""
+import os, time, json, re, hashlib, subprocess
 from .. import core, build, lean, sim, protos
 
 PROP = "C20"
@@ -86,6 +91,463 @@ def url_part(tier, seed, v):
     return {"cases": len(lines), "bad": len(bad), "enomem": sum(1 for o in res.lines if "p=2" in o or "c=2" in o)}
 
 
+# ------------------------------------------------------------------------------------------------------------
+# UNIT sweeps shared machinery (WebSocket, HTTP): a scenario is a list of op lines; it is run once with
+# `failat 0` (the baseline: allocation count N and the outputs) and then once per k with `failat k`.
+def _dep_hash(*files):
+    h = hashlib.sha256()
+    for f in files:
+        h.update(open(os.path.join(build.HARNESS, f), "rb").read())
+    return h.hexdigest()[:12]
+
+
+def run_unit_cases(exe, cases, timeout=300):
+    """cases: op-line lists.  Returns (results, exits): results[i] = output lines, or a dict describing the
+    crash/hang of that case (the remaining cases of the chunk are run in a fresh process); exits = problems
+    seen at process exit (sanitizer leak report, allocator balance after nng_fini)."""
+    env = build.env()
+    parts = core.chunked(list(range(len(cases))), core.NCPU * 2)
+
+    def work(idx):
+        out, exits, todo = {}, [], list(idx)
+        while todo:
+            r = core.run_stream([exe], core.cases_to_text([cases[i] for i in todo]), env=env, timeout=timeout)
+            done, partial = core.split_cases(r.lines)
+            for i, l in zip(todo, done):
+                out[i] = l
+            if len(done) >= len(todo):
+                fin = [l for l in partial if l.startswith("fini ")]
+                if r.rc != 0 or not fin or fin[-1] != "fini live=0 badfree=0":
+                    exits.append({"cases": [cases[i] for i in todo[:3]], "rc": r.rc, "fini": fin[-1:] or None, "stderr": r.err[-2500:]})
+                break
+            bad = todo[len(done)]
+            sig = [l for l in partial if l.startswith("panic:") or l == "HANG"] + re.findall(r"SUMMARY: \w+: (\S+) \S+ in (\S+)", r.err) + \
+                re.findall(r"runtime error: ([a-z ]{0,40})", r.err)
+            out[bad] = {"crash": True, "rc": r.rc, "signature": str(sig[0]) if sig else "", "stderr": r.err[-2500:],
+                        "partial": [l for l in partial if not re.search(r"\[0x[0-9a-f]+\]$", l)][-6:]}
+            todo = todo[len(done) + 1:]
+        return out, exits
+
+    results, exits = {}, []
+    for o, e in core.parallel_map(work, parts):
+        results.update(o)
+        exits += e
+    return [results.get(i) for i in range(len(cases))], exits
+
+
+def corpus_scenarios(sub):
+    """directed scenarios: corpus/C20/<sub>-*.txt (op lines without failat/end; `#` comments); swept over every k"""
+    d = os.path.join(core.HERE, "corpus", PROP)
+    out = []
+    for f in sorted(os.listdir(d)) if os.path.isdir(d) else []:
+        if f.startswith(sub + "-") and f.endswith(".txt"):
+            ops = [l.strip() for l in open(os.path.join(d, f)) if l.strip() and not l.startswith("#")]
+            out.append(([l for l in ops if not l.startswith("failat ") and l != "end"], False))
+    return out
+
+
+END_RE = re.compile(r"end live=(-?\d+) badfree=(\d+) allocs=(\d+) fired=(\d+)$")
+
+
+def unit_sweep(sub, exe, scenarios, judge, tier, seed, v, per, what):
+    """scenarios: list of (ops, lenient).  judge(base_lines, lines, lenient) -> None | reason."""
+    base, exits = run_unit_cases(exe, [["failat 0"] + ops + ["end"] for ops, _ in scenarios])
+    jobs = []
+    points = 0
+    for si, ((ops, lenient), b) in enumerate(zip(scenarios, base)):
+        m = END_RE.match(b[-1]) if isinstance(b, list) and b else None
+        if not m or m.group(1) != "0" or m.group(2) != "0":
+            v.violation(f"{sub}-base-{si}", {"kind": f"{what}: the scenario misbehaves without any injected failure", "sub": sub,
+                                            "ops": ["failat 0"] + ops + ["end"], "impl": b})
+            continue
+        n = int(m.group(3))
+        points += n
+        ks = list(range(1, n + 1))
+        if len(ks) > per:
+            r = core.Rng(seed, PROP, tier, sub, "k", si)
+            ks = sorted(set([1, 2, n] + [r.range(1, n) for _ in range(per)]))
+        jobs += [(si, k) for k in ks]
+    res, ex2 = run_unit_cases(exe, [[f"failat {k}"] + scenarios[si][0] + ["end"] for si, k in jobs])
+    exits += ex2
+    cnt = {"scenarios": len(scenarios), "allocation_points": points, "runs": len(jobs) + len(scenarios), "crashes": 0, "bad": 0,
+           "fired": 0, "absorbed": 0, "outcomes": {}}
+    reported = set()
+    for (si, k), r in zip(jobs, res):
+        ops, lenient = scenarios[si]
+        case = [f"failat {k}"] + ops + ["end"]
+        if not isinstance(r, list):
+            cnt["crashes"] += 1
+            key = ("crash", (r or {}).get("rc"), (r or {}).get("signature"))
+            if key not in reported and len(reported) < 4:
+                reported.add(key)
+                mini = unit_minimise(exe, case)
+                v.violation(f"{sub}-crash-{si}-{k}", {"kind": f"{what}: crash / sanitizer report / panic / hang after an injected allocation failure",
+                                                      "sub": sub, "ops": mini, "rc": (r or {}).get("rc"), "signature": (r or {}).get("signature"), "last_output": (r or {}).get("partial"),
+                                                      "stderr": (r or {}).get("stderr")})
+            continue
+        m = END_RE.match(r[-1]) if r else None
+        if m and m.group(4) != "0":
+            cnt["fired"] += 1
+            if r[:-1] == base[si][:-1]:
+                cnt["absorbed"] += 1   # the failure had no visible effect (e.g. a PONG that is not sent)
+        why = judge(base[si], r, lenient)
+        oc = "ok" if why is None else why.split(":")[0]
+        cnt["outcomes"][oc] = cnt["outcomes"].get(oc, 0) + 1
+        if why is not None:
+            cnt["bad"] += 1
+            key = ("bad", oc)
+            if key not in reported and len(reported) < 4:
+                reported.add(key)
+                v.violation(f"{sub}-{si}-{k}", {"kind": f"{what}: after an injected allocation failure: " + why, "sub": sub, "ops": case,
+                                                "impl": r, "baseline": base[si]})
+    for e in exits[:2]:
+        cnt["bad"] += 1
+        v.violation(f"{sub}-exit-{abs(hash(json.dumps(e['cases']))) % 10000}",
+                    {"kind": f"{what}: problem at process exit (leak report / allocator balance after nng_fini / exit status)", "sub": sub,
+                     "ops": [l for c in e["cases"] for l in c + ["reset"]], "rc": e["rc"], "fini": e["fini"], "stderr": e["stderr"]})
+    return cnt
+
+
+def unit_minimise(exe, case, budget_s=30):
+    """drop ops between `failat k` and `end` while the process still dies (k is kept: fewer ops before the
+    failing allocation change which allocation fails, so only ops that keep the crash are removed)"""
+    def fails(ops):
+        r = core.run_stream([exe], "\n".join(ops) + "\n", env=build.env(), timeout=60)
+        return r.rc != 0
+    try:
+        if not fails(case):
+            return case
+        return core.ddmin(case[:-1], lambda o: fails(o + ["end"]), budget_s, keep_prefix=2) + ["end"]
+    except Exception:
+        return case
+
+
+# ---------------------------------------------------------------------------------------------- WebSocket part
+def ws_frame(op, fin, payload, key=None):
+    b = bytearray([(0x80 if fin else 0) | op])
+    n = len(payload)
+    mk = 0x80 if key is not None else 0
+    if n < 126:
+        b.append(mk | n)
+    elif n < 65536:
+        b += bytes([mk | 126, n >> 8, n & 255])
+    else:
+        b += bytes([mk | 127]) + n.to_bytes(8, "big")
+    if key is not None:
+        b += key
+        payload = bytes(c ^ key[i & 3] for i, c in enumerate(payload))
+    return bytes(b) + payload
+
+
+def ws_scenarios(seed, tier, n):
+    out = []
+    for i in range(n):
+        r = core.Rng(seed, PROP, tier, "ws", i)
+        server = r.below(2)
+        stream = 1 if r.chance(1, 4) else 0
+        frag = r.choice([0, 64, 128, 1 << 20])
+        recvmax = r.choice([0, 1 << 20])
+        key = (lambda: r.bytes(4)) if server else (lambda: None)
+        ops = [f"cfg {server} {stream} 0 0 1048576 {recvmax} {frag}"]
+        for _ in range(r.range(3, 7)):
+            w = r.below(10)
+            if w < 5:      # a message from the peer: 1..3 fragments, control frames in between, fed in 1..2 pieces
+                size = r.choice([0, 5, 125, 126, 300, 2000, 70000 if tier != "quick" or r.chance(1, 6) else 200])
+                data = r.bytes(size) if size else b""
+                nfr = r.range(1, 3)
+                cuts = sorted(r.range(0, size) for _ in range(nfr - 1))
+                pieces = [data[a:b] for a, b in zip([0] + cuts, cuts + [size])]
+                wire = b""
+                for fi, pc in enumerate(pieces):
+                    wire += ws_frame(2 if fi == 0 else 0, fi == len(pieces) - 1, pc, key())
+                    if fi < len(pieces) - 1 and r.chance(1, 2):
+                        wire += ws_frame(r.choice([9, 10]), True, r.bytes(r.choice([0, 4, 125])), key())
+                if r.chance(1, 3) and len(wire) > 3:
+                    c = r.range(1, len(wire) - 1)
+                    ops += ["rx " + wire[:c].hex(), "rx " + wire[c:].hex()]
+                else:
+                    ops.append("rx " + wire.hex())
+            elif w < 8:    # a message to the peer (fragmented by fragsize)
+                hl = r.choice([0, 4, 8])
+                ops.append(f"send {core.hexs(r.bytes(hl))} {core.hexs(r.bytes(r.choice([0, 10, 126, 500, 3000])))} {r.range(1, 99999)}")
+            elif w < 9:    # PING from the peer
+                ops.append("rx " + ws_frame(9, True, r.bytes(r.choice([0, 10, 125])), key()).hex())
+            else:          # close handshake (from the peer or local)
+                ops.append(r.choice(["close", "rx " + ws_frame(8, True, b"\x03\xe8", key()).hex()]))
+        out.append((ops, False))
+    return out
+
+
+def _ws_parse(lines):
+    """-> (deliveries, data frames per op index, signals, problems)"""
+    deliv, frames, signal, prob = [], {}, False, []
+    for i, l in enumerate(lines):
+        if l.startswith("send-kept-msg"):
+            prob.append("send-kept-msg: a successful send left the message with the caller (double ownership)")
+        if l in ("cfg rv=2", "harness-enomem") or " closed=1" in l:
+            signal = True
+        m = re.search(r"send rv=(\d+)", l)
+        if m:
+            if m.group(1) not in ("0", "2", "7"):
+                prob.append(f"send-rv: send completed with {m.group(1)} (expected 0, NNG_ENOMEM or NNG_ECLOSED)")
+            if m.group(1) != "0":
+                signal = True
+        ev = l.split(" ev=", 1)[1] if " ev=" in l else "-"
+        for e in ([] if ev == "-" else ev.split(",")):
+            if e[:2] in ("m:", "d:"):
+                deliv.append(e)
+            elif e.startswith("e:"):
+                signal = True
+                if e[2:] not in ("2", "7"):
+                    prob.append(f"recv-rv: receive completed with {e[2:]} (expected NNG_ENOMEM or NNG_ECLOSED)")
+            elif e.startswith("t:") and len(e) >= 4 and int(e[3], 16) < 8:     # a data frame (opcode 0..2)
+                if m and m.group(1) == "0":
+                    frames.setdefault(i, []).append(e)
+    return deliv, frames, signal, prob
+
+
+def ws_judge(base, lines, lenient=False):
+    m = END_RE.match(lines[-1]) if lines else None
+    if not m:
+        return "incomplete: no end line"
+    if m.group(1) != "0" or m.group(2) != "0":
+        return f"leak: allocator balance after teardown: live={m.group(1)} badfree={m.group(2)}"
+    bd, bf, _, _ = _ws_parse(base)
+    d, f, signal, prob = _ws_parse(lines)
+    if prob:
+        return prob[0]
+    if d != bd[:len(d)]:
+        return "corrupt-delivery: the messages delivered are not a prefix of the messages delivered without the failure"
+    for i, fr in f.items():
+        if fr != bf.get(i, fr):
+            return "corrupt-send: a send reported success but the frames written differ from the run without the failure"
+    if len(d) < len(bd) and not signal:
+        return "silent-loss: fewer messages delivered, but no operation failed and the connection was not closed"
+    return None
+
+
+def ws_part(tier, seed, v):
+    """UNIT support: the real websocket.c (ws_init, ws_str_recv/ws_read_cb/ws_read_frame_cb/ws_read_finish_*, ws_str_send/
+    ws_frame_prep_tx/ws_write_cb, ws_send_control, ws_close/ws_send_close, ws_fini) with the k-th allocation failing."""
+    try:
+        exe = build.harness("u_wsfail", ["u_wsfail.c", "valloc.c"], extra=["-DDEP_HASH=" + _dep_hash("u_ws.c")])
+    except build.BuildError as e:
+        v.violation("ws-build", {"kind": "build", "error": str(e), "log": e.log[-3000:]}, no_input=True)
+        return {"skipped": "build"}
+    n, per = (48, 10 ** 9) if tier == "quick" else (1500, 10 ** 9)
+    return unit_sweep("ws", exe, corpus_scenarios("ws") + ws_scenarios(seed, tier, n), ws_judge, tier, seed, v, per, "WebSocket frame layer")
+
+
+# --------------------------------------------------------------------------------------------------- HTTP part
+def http_scenarios(seed, tier, n):
+    hx = lambda t: (t if isinstance(t, bytes) else t.encode()).hex() or "-"
+    out = []
+    for i in range(n):
+        r = core.Rng(seed, PROP, tier, "http", i)
+        uri = lambda: "/" + "".join(r.choice("abcdefgh/") for _ in range(r.choice([3, 20, 199, 200, 201, 450])))
+        name = lambda: r.choice(["X-A", "X-B", "Accept", "x-a", "Cookie", "Sec-WebSocket-Key", "Content-Type", "Content-Length", "Host"])
+        val = lambda: "".join(r.choice("abc123 ,;") for _ in range(r.choice([1, 8, 40, 300]))).strip() or "v"
+        lenient = False
+        ops = []
+        if r.below(2) == 0:     # server connection: read a request (or two), answer it
+            ops.append("conn 0")
+            for _ in range(r.range(1, 2)):
+                hdrs = [("Host", "h.example")] + [(name(), val()) for _ in range(r.range(0, 5))]
+                body = r.bytes(r.choice([0, 3, 50]))
+                req = f"{r.choice(['GET', 'POST', 'PUT'])} {uri()} HTTP/1.1\r\n" + "".join(f"{a}: {b}\r\n" for a, b in hdrs) + "\r\n"
+                wire = req.encode() + body
+                ops.append("req")
+                if r.chance(1, 3):
+                    c = r.range(1, len(wire) - 1)
+                    ops += ["rx " + wire[:c].hex(), "rx " + wire[c:].hex()]
+                else:
+                    ops.append("rx " + wire.hex())
+                if body:
+                    ops.append(f"full {len(body)}")
+                w = r.below(6)
+                if w == 0:
+                    ops.append(f"redir 301 - {hx('http://h.example' + uri())}")
+                    lenient = True      # documented best effort: the explanatory body may be missing
+                elif w == 1:
+                    ops.append(f"seterr {r.choice([404, 500])} - {r.choice(['-', hx('<html>custom body</html>')])}")
+                    lenient = True
+                else:
+                    if r.chance(1, 4):
+                        ops.append(f"sets {r.choice([200, 404])} {hx('Custom reason')}")
+                        lenient = True  # documented: a reason that cannot be copied is replaced by the standard one
+                    else:
+                        ops.append(f"sets 200 {hx('OK')}")
+                    for _ in range(r.range(0, 4)):
+                        ops.append(f"{r.choice(['seth', 'addh'])} {hx(name())} {hx(val())}")
+                    if r.chance(2, 3):
+                        ops.append("body " + hx(r.bytes(r.choice([1, 10, 9000]))))
+                if r.chance(1, 5):
+                    for j in range(30):  # a head beyond the 8 KB connection buffer: http_prepare has to allocate
+                        ops.append(f"addh {hx('X-Pad-%d' % j)} {hx('p' * 300)}")
+                ops.append("emit")
+        else:                   # client connection: build and write a request, read the response
+            ops.append("conn 1")
+            for _ in range(r.range(1, 2)):
+                ops.append("setm " + hx(r.choice(["GET", "POST"])))
+                for _ in range(r.range(1, 3)):
+                    ops.append("seturi " + hx(uri()))
+                for _ in range(r.range(0, 4)):
+                    ops.append(f"{r.choice(['seth', 'addh'])} {hx(name())} {hx(val())}")
+                if r.chance(1, 2):
+                    ops.append("body " + hx(r.bytes(r.choice([1, 10, 9000]))))
+                if r.chance(1, 5):
+                    for j in range(30):
+                        ops.append(f"addh {hx('X-Pad-%d' % j)} {hx('p' * 300)}")
+                ops.append("emit")
+                reason = r.choice(["OK", "OK", "Weird Reason"])
+                lenient = lenient or reason != "OK"
+                hdrs = [(name(), val()) for _ in range(r.range(0, 5))]
+                body = r.bytes(r.choice([0, 7]))
+                wire = (f"HTTP/1.1 200 {reason}\r\n" + "".join(f"{a}: {b}\r\n" for a, b in hdrs if a != "Host") + "\r\n").encode() + body
+                ops += ["res", "rx " + wire.hex()]
+                if body:
+                    ops.append(f"full {len(body)}")
+        out.append((ops, lenient))
+    return out
+
+
+HTTP_ERR = re.compile(r"(^conn enomem$)|( rv=2\b)|(^no-conn$)")
+
+
+def http_judge(base, lines, lenient=False):
+    m = END_RE.match(lines[-1]) if lines else None
+    if not m:
+        return "incomplete: no end line"
+    if m.group(1) != "0" or m.group(2) != "0":
+        return f"leak: allocator balance after teardown: live={m.group(1)} badfree={m.group(2)}"
+    failed = False
+    for i, (b, l) in enumerate(zip(base[:-1], lines[:-1])):
+        if l == b:
+            continue
+        if HTTP_ERR.search(l):
+            failed = True       # the failure was reported (NNG_ENOMEM); what follows may legitimately differ
+            continue
+        if failed or lenient:
+            continue
+        # nothing has reported a failure so far, but the observable result differs: the failure was swallowed
+        return (f"silent-deviation: line {i}: no operation has failed, yet the result differs from the run without the failure: "
+                f"`{l[:160]}` instead of `{b[:160]}`")
+    return None
+
+
+def http_part(tier, seed, v):
+    """UNIT support: the real http_conn.c / http_msg.c (http_init, request / response / header parsing into the connection,
+    nni_http_set_uri/set_header/add_header/set_status/copy_body/set_redirect/set_error, http_prepare + write) with the k-th
+    allocation failing."""
+    try:
+        exe = build.harness("u_httpfail", ["u_httpfail.c", "valloc.c"], extra=["-DDEP_HASH=" + _dep_hash("u_http.c")])
+    except build.BuildError as e:
+        v.violation("http-build", {"kind": "build", "error": str(e), "log": e.log[-3000:]}, no_input=True)
+        return {"skipped": "build"}
+    n, per = (64, 10 ** 9) if tier == "quick" else (2000, 10 ** 9)
+    return unit_sweep("http", exe, corpus_scenarios("http") + http_scenarios(seed, tier, n), http_judge, tier, seed, v, per, "HTTP connection / message layer")
+
+
+# --------------------------------------------------------------------------------------------------- REAL part
+REAL_OK = {"init": {0, 2}, "rep_open": {0, 2}, "req_open": {0, 2}, "rep_recvtimeo": {0}, "rep_sendtimeo": {0}, "req_recvtimeo": {0},
+           "req_sendtimeo": {0}, "listen": {0, 2}, "bound_port": {0},
+           # a connection attempt that hit the failure on either side: refused / reset / shut / protocol error / closed
+           "dial": {0, 2, 6, 7, 13, 18, 19, 31},
+           # after a failure inside the exchange a message may be lost (documented best effort): time-outs, wrong state
+           "req_send": {0, 2, 5, 7}, "rep_recv": {0, 2, 5, 7}, "rep_send": {0, 2, 5, 7, 11}, "req_recv": {0, 2, 5, 7, 11, 19, 31},
+           "stats": {0, 2}, "req_close": {0}, "rep_close": {0}}
+
+
+def real_judge(rc, lines, err):
+    if rc != 0:
+        return f"crash: exit status {rc} (sanitizer report / panic / watchdog)"
+    if not lines or not lines[-1].startswith("fini live=0 badfree=0 "):
+        return "leak: allocator balance after nng_fini: " + (lines[-1] if lines else "no output")
+    for l in lines[:-1]:
+        w = l.split()
+        if len(w) != 2 or w[0] not in REAL_OK or not w[1].lstrip("-").isdigit():
+            return "output: " + l
+        if int(w[1]) not in REAL_OK[w[0]]:
+            return f"wrong-error: {w[0]} returned {w[1]}"
+    return None
+
+
+def real_part(tier, seed, v, only=None):
+    """REAL support (search): harness/r_allocfail.c — nng_init, open REP+REQ, listen, dial, one exchange, statistics snapshot, close,
+    nng_fini over real transports with the k-th allocation failing (armed before nng_init: library start-up is part of it)."""
+    try:
+        exe = build.harness("r_allocfail", ["r_allocfail.c", "valloc.c"])
+    except build.BuildError as e:
+        v.violation("real-build", {"kind": "build", "error": str(e), "log": e.log[-3000:]}, no_input=True)
+        return {"skipped": "build"}
+    env = build.env()
+
+    def one(job):
+        t, k = job
+        try:
+            p = subprocess.run([exe, t, str(k)], env=env, capture_output=True, text=True, timeout=90)
+            return job, p.returncode, p.stdout.splitlines(), p.stderr
+        except subprocess.TimeoutExpired:
+            return job, -999, [], "TIMEOUT"
+
+    if only is not None:
+        jobs = [(only["transport"], only["k"])] * 8
+        trans, counts = [only["transport"]], {}
+    else:
+        trans = ["inproc", "ipc", "tcp"] + (["ws"] if os.environ.get("VERIF_C20_REAL_WS") else [])
+        counts = {}
+        for (t, _), rc, lines, err in core.parallel_map(one, [(t, 0) for t in trans]):
+            m = re.search(r"allocs=(\d+)", lines[-1]) if lines else None
+            why = real_judge(rc, lines, err)
+            if why or not m or any(not l.endswith(" 0") for l in lines[:-1]):
+                v.violation(f"real-base-{t}", {"kind": "REAL program misbehaves without any injected failure: " + str(why), "sub": "real",
+                                               "transport": t, "k": 0, "ops": [f"r_allocfail {t} 0"], "impl": lines, "stderr": err[-2000:]})
+                continue
+            counts[t] = int(m.group(1))
+        reps = 1 if tier == "quick" else 4
+        # background threads allocate too, so the count varies a little from run to run: sweep a margin beyond it
+        jobs = [(t, k) for t in counts for k in range(1, counts[t] + 9) for _ in range(reps)]
+    res = core.parallel_map(one, jobs)
+    cnt = {"transports": trans, "allocation_points": counts, "runs": len(jobs) + len(trans), "bad": 0, "fired": 0, "outcomes": {}}
+    seen = set()
+    for (t, k), rc, lines, err in res:
+        if lines and "fired=1" in lines[-1]:
+            cnt["fired"] += 1
+        why = real_judge(rc, lines, err)
+        oc = "ok" if why is None else why.split(":")[0]
+        cnt["outcomes"][oc] = cnt["outcomes"].get(oc, 0) + 1
+        if why is None:
+            continue
+        cnt["bad"] += 1
+        m = re.search(r"#0 \S+ in (\S+)", err)
+        key = (oc, m.group(1) if m else (why if oc != "leak" else t))
+        if key in seen or len(seen) >= 8:
+            continue
+        seen.add(key)
+        again = [real_judge(*r[1:]) for r in core.parallel_map(one, [(t, k)] * 6)] if only is None else []
+        v.violation(f"real-{t}-{k}", {"kind": "REAL program (real threads and transports) after an injected allocation failure: " + why, "sub": "real",
+                                      "transport": t, "k": k, "ops": [f"r_allocfail {t} {k}"], "impl": lines, "stderr": err[-3000:],
+                                      "reproduced": f"{sum(1 for a in again if a)}/{len(again)} repetitions of the same (transport, k) also fail "
+                                                    "(the allocation order is not deterministic with real threads)"})
+    return cnt
+
+
+def unit_replay(rp, v):
+    """--replay of a ws/http/real replay file: run the stored ops, judge them against the same ops with `failat 0`"""
+    sub, ops = rp["sub"], rp["ops"]
+    if sub == "real":
+        return real_part("quick", 1, v, only=rp) 
+    exe = build.harness("u_wsfail", ["u_wsfail.c", "valloc.c"], extra=["-DDEP_HASH=" + _dep_hash("u_ws.c")]) if sub == "ws" else \
+        build.harness("u_httpfail", ["u_httpfail.c", "valloc.c"], extra=["-DDEP_HASH=" + _dep_hash("u_http.c")])
+    case = [l for l in ops if l != "reset"]
+    basecase = [re.sub(r"^failat \d+$", "failat 0", l) for l in case]
+    (b, r), exits = run_unit_cases(exe, [basecase, case])
+    why = "crash / sanitizer report / panic / hang" if not isinstance(r, list) else (ws_judge if sub == "ws" else http_judge)(b, r, False)
+    if why or exits:
+        v.violation(f"{sub}-replay", {"kind": why or "problem at process exit", "sub": sub, "ops": case, "impl": r, "exits": exits})
+    return {"replayed": sub, "verdict": why}
+
+
 def run(tier, seed, replay=None):
     t0 = time.time()
     v = core.Verdict(PROP, seed)
@@ -100,13 +562,27 @@ def run(tier, seed, replay=None):
                             "trusted_base": [], "explanation": "implementation or harness does not build"}, [], time.time() - t0, 1)
         return v.finish()
     nprog = 32 if tier == "quick" else 400
-    per = 16 if tier == "quick" else 10 ** 9
+    per = 24 if tier == "quick" else 10 ** 9
+    rp = json.load(open(replay)) if replay else None
+    if rp and rp.get("sub") in ("ws", "http", "real"):
+        # replay of a UNIT / REAL finding: no SIM run needed
+        sub = unit_replay(rp, v)
+        core.log(PROP, f"replay: {sub if not isinstance(sub, dict) else {k: sub[k] for k in list(sub)[:6]}}")
+        core.write_evidence(PROP, tier, seed, "proof", {"obligations": len(st.theorems), "discharged": len(st.discharged), "checker_cmd": "lake build",
+                            "trusted_base": [], "replay": replay}, [], time.time() - t0, len(v.violations))
+        return v.finish()
     if replay:
-        rp = json.load(open(replay))
         cases = [rp["ops"][1:] if rp["ops"][0].startswith("sched") else rp["ops"]]
         programs, counts = [], []
     else:
-        programs = [ops[:40] for _, ops in protos.histories(seed, tier, nprog, PROP)]
+        programs = []
+        for pi, (_, ops) in enumerate(protos.histories(seed, tier, nprog, PROP)):
+            ops = ops[:40]
+            # statistics snapshots (nng_stats_get + walk + nng_stats_free) at one or two places of every history
+            r = core.Rng(seed, PROP, tier, "stats", pi)
+            for _ in range(r.range(1, 2)):
+                ops.insert(r.range(1, len(ops)), "stats")
+            programs.append(ops)
         # the socket must be open before failures are injected: `open` stays first, failalloc follows it
         counts = count_allocs(exe, programs)
         cases = []
@@ -135,20 +611,47 @@ def run(tier, seed, replay=None):
                     "clause": jv["clause"], "ops": ops, "impl": il, "judge": verdicts})
     urlcov = url_part(tier, seed, v) if not replay else {}
     core.log(PROP, f"URL allocation-failure cases: {urlcov}")
+    parts = {}
+    if not replay:
+        for name, fn in (("ws", ws_part), ("http", http_part), ("real", real_part)):
+            t1 = time.time()
+            try:
+                parts[name] = fn(tier, seed, v)
+            except Exception as e:      # a broken part must not pass silently
+                v.violation(f"{name}-part", {"kind": f"the {name} part of the check failed to run", "error": repr(e)[:500]}, no_input=True)
+                parts[name] = {"error": repr(e)[:200]}
+            parts[name]["wall_s"] = round(time.time() - t1, 1)
+            core.log(PROP, f"{name} part: " + json.dumps({k: x for k, x in parts[name].items() if k != "allocation_points" or name != "real"})[:400])
+    nstats = sum(1 for c in cases for l in c if l == "stats")
+    if nstats and not any(k.startswith("stats") for k in res.ev_hist):
+        core.log(PROP, "NOTE: harness/s_proto.c has no `stats` op (integration/C20X-s_proto.c.diff not applied): statistics snapshots are NOT covered by this run")
     if not v.violations and not st.ok:
         v.violation("proof", {"kind": "proof obligation no longer checks", "broken": st.broken, "log": st.log[-3000:]}, no_input=True)
     cov = {"obligations": len(st.theorems), "discharged": len(st.discharged),
            "checker_cmd": "lake build NngModel.Props.C20 && lake env lean <#print axioms for each theorem>",
            "trusted_base": ["Lean 4.33.0 kernel", "axioms: " + ", ".join(sorted({a for x in st.axioms.values() if x for a in x})),
-                            "harness/valloc.c (failure injection + accounting), simplat.c, mocktran.c, s_proto.c", "gcc ASan/UBSan/LSan"],
+                            "harness/valloc.c (failure injection + accounting), simplat.c, mocktran.c, s_proto.c",
+                            "u_wsfail.c + u_ws.c (fake HTTP byte transport under the real websocket.c), u_httpfail.c + u_http.c (fake byte stream under "
+                            "the real http_conn.c / http_msg.c), u_urlfail.c, r_allocfail.c", "gcc ASan/UBSan/LSan"],
            "theorems": st.discharged, "axioms": st.axioms, "broken": st.broken,
-           "evaluations": res.runs, "distinct_nontrivial": len({tuple(c) for c in cases}),
+           "evaluations": res.runs + sum((parts.get(n) or {}).get("runs", 0) for n in ("ws", "http", "real")) + urlcov.get("cases", 0), "distinct_nontrivial": len({tuple(c) for c in cases}),
            "rule": "fault enumeration in support of the proof: for each of the protocol histories (vlib/protos.py providers, first 40 events) the number N of "
-                   "allocations is measured, then the k-th allocation is failed for " + ("a sample of k (1,2,3,N and 16 random)" if tier == "quick" else "every k in 1..N") +
+                   "allocations is measured, then the k-th allocation is failed for " + ("a sample of k (1,2,3,N and 24 random)" if tier == "quick" else "every k in 1..N") +
                    "; each run ends with close + nng_fini and the allocator balance; distinct = distinct (program,k) pairs",
            "programs": len(programs), "allocation_points_total": sum(counts), "ops": res.ops, "event_histogram": res.ev_hist,
-           "samples": [cases[0], cases[-1]] if cases else [], "judge_violations": len(res.judge_viol), "crashes": len(res.crashes), "url_unit_part": urlcov}
+           "samples": [cases[0], cases[-1]] if cases else [], "judge_violations": len(res.judge_viol), "crashes": len(res.crashes), "url_unit_part": urlcov,
+           "stats_ops_in_sim_runs": nstats, "stats_results": {k: n for k, n in res.ev_hist.items() if k.startswith("stats")},
+           "websocket_unit_part": parts.get("ws"), "http_unit_part": parts.get("http"), "real_part": parts.get("real"),
+           "parts_rule": "ws/http: every generated scenario (and corpus/C20/<part>-*.txt) is run once without failure (allocation count N, "
+                         "reference outputs) and once per k in 1..N with the k-th allocation failing; verdict per run: process survives (sanitizers, "
+                         "panic, 20 s watchdog), allocator balance zero after teardown and after nng_fini, results are the reference results or "
+                         "NNG_ENOMEM / NNG_ECLOSED, no corrupted or silently lost delivery (ws), no silently different result (http). "
+                         "real: r_allocfail <transport> <k> for every k of the measured range (+8), return codes in the allowed sets, "
+                         "balance zero after nng_fini"}
     core.write_evidence(PROP, tier, seed, "proof", cov,
                         ["single allocation failure per run", "allocation order is deterministic under the simulated platform with a fixed schedule seed",
-                         "only allocations through nni_alloc/nni_zalloc are injectable (not libc internals)"], time.time() - t0, len(v.violations))
+                         "only allocations through nni_alloc/nni_zalloc are injectable (not libc internals)",
+                         "ws/http UNIT parts: the byte transport under the component is the harness's (its allocations are not the component's)",
+                         "REAL part: allocation order depends on thread timing (a search, not an enumeration); the ws transport is swept only with "
+                         "VERIF_C20_REAL_WS=1 (open finding, see integration/C20X.md)"], time.time() - t0, len(v.violations))
     return v.finish()
